@@ -23,6 +23,21 @@ const Tol = 1e-9
 type S struct {
 	V []float64
 	X []bool
+	// Pure: every value is a pointwise function of the inputs at its own (or a lagged) position, computed by the
+	// implementation with the same operations in the same order. For such a series a position that is exempt because
+	// a denominator is EXACTLY zero still has a definite IEEE value (NaN or +-Inf), recorded in V and flagged in Z: a
+	// decision rule applied to it has a definite answer (every comparison with NaN is false).
+	Pure bool
+	Z    []bool
+}
+
+func (s S) z(i int) bool { return s.Z != nil && s.Z[i] }
+
+func (s *S) setZ(i int) {
+	if s.Z == nil {
+		s.Z = make([]bool, len(s.V))
+	}
+	s.Z[i] = true
 }
 
 // NaN is the undefined marker.
@@ -39,7 +54,7 @@ func New(n int) S {
 
 // From wraps raw input values.
 func From(x []float64) S {
-	s := S{V: append([]float64{}, x...), X: make([]bool, len(x))}
+	s := S{V: append([]float64{}, x...), X: make([]bool, len(x)), Pure: true}
 	return s
 }
 
@@ -62,6 +77,7 @@ func (s S) Start() int {
 // Const is a constant series.
 func Const(n int, v float64) S {
 	s := New(n)
+	s.Pure = true
 	for i := range s.V {
 		s.V[i] = v
 	}
@@ -71,12 +87,17 @@ func Const(n int, v float64) S {
 // Map1 applies f pointwise.
 func Map1(a S, f func(x float64) float64) S {
 	o := New(a.Len())
+	o.Pure = a.Pure
 	for i := range a.V {
 		if !a.Def(i) {
 			continue
 		}
 		if a.X[i] {
 			o.X[i] = true
+			if o.Pure && a.z(i) {
+				o.V[i] = f(a.V[i])
+				o.setZ(i)
+			}
 			continue
 		}
 		o.V[i] = f(a.V[i])
@@ -87,12 +108,17 @@ func Map1(a S, f func(x float64) float64) S {
 // Map2 applies f pointwise to two series.
 func Map2(a, b S, f func(x, y float64) float64) S {
 	o := New(a.Len())
+	o.Pure = a.Pure && b.Pure
 	for i := range a.V {
 		if !a.Def(i) || !b.Def(i) {
 			continue
 		}
 		if a.X[i] || b.X[i] {
 			o.X[i] = true
+			if o.Pure && (!a.X[i] || a.z(i)) && (!b.X[i] || b.z(i)) {
+				o.V[i] = f(a.V[i], b.V[i])
+				o.setZ(i)
+			}
 			continue
 		}
 		o.V[i] = f(a.V[i], b.V[i])
@@ -103,12 +129,17 @@ func Map2(a, b S, f func(x, y float64) float64) S {
 // Map3 applies f pointwise to three series.
 func Map3(a, b, c S, f func(x, y, z float64) float64) S {
 	o := New(a.Len())
+	o.Pure = a.Pure && b.Pure && c.Pure
 	for i := range a.V {
 		if !a.Def(i) || !b.Def(i) || !c.Def(i) {
 			continue
 		}
 		if a.X[i] || b.X[i] || c.X[i] {
 			o.X[i] = true
+			if o.Pure && (!a.X[i] || a.z(i)) && (!b.X[i] || b.z(i)) && (!c.X[i] || c.z(i)) {
+				o.V[i] = f(a.V[i], b.V[i], c.V[i])
+				o.setZ(i)
+			}
 			continue
 		}
 		o.V[i] = f(a.V[i], b.V[i], c.V[i])
@@ -134,12 +165,18 @@ func Abs(a S) S { return Map1(a, math.Abs) }
 // Div is a/b; positions whose denominator is (numerically) zero are exempt.
 func Div(a, b S) S {
 	o := New(a.Len())
+	o.Pure = a.Pure && b.Pure
 	for i := range a.V {
 		if !a.Def(i) || !b.Def(i) {
 			continue
 		}
 		if a.X[i] || b.X[i] || math.Abs(b.V[i]) <= Tol*Scale {
 			o.X[i] = true
+			// an exactly zero denominator of a pointwise formula: the IEEE quotient (NaN or +-Inf) is what the formula gives
+			if o.Pure && (!a.X[i] || a.z(i)) && ((!b.X[i] && b.V[i] == 0) || b.z(i)) {
+				o.V[i] = a.V[i] / b.V[i]
+				o.setZ(i)
+			}
 			continue
 		}
 		o.V[i] = a.V[i] / b.V[i]
@@ -167,9 +204,13 @@ func DivScaled(a, b S, scale float64) S {
 // Lag shifts by k positions: out[i] = a[i-k].
 func Lag(a S, k int) S {
 	o := New(a.Len())
+	o.Pure = a.Pure
 	for i := range a.V {
 		if a.Def(i - k) {
 			o.V[i], o.X[i] = a.V[i-k], a.X[i-k]
+			if a.z(i - k) {
+				o.setZ(i)
+			}
 		}
 	}
 	return o
